@@ -173,6 +173,49 @@ pub fn buf_events(t: &str, cs: [char; 2], ss: [&str; 2]) -> Vec<BufEv> {
     ev
 }
 
+/// violation key of a failing history: what was pushed between the previous
+/// read and the FIRST wrong read (so that one defect is one key, not one per history)
+pub fn buf_diagnose(args: &[A], got: &str) -> String {
+    let t = args[0].s();
+    let want = buf_oracle(t, args[1].s(), [args[2].c(), args[3].c()], [args[4].s(), args[5].s()]);
+    let mut prefix = String::from("[");
+    let mut first_wrong = want.len();
+    for (k, w) in want.iter().enumerate() {
+        if k > 0 {
+            prefix.push_str(", ");
+        }
+        prefix.push_str(&format!("{w:?}"));
+        if !got.starts_with(&prefix) {
+            first_wrong = k;
+            break;
+        }
+    }
+    let (mut reads, mut seg, mut any_read) = (0usize, std::collections::BTreeSet::new(), false);
+    for op in t.chars().chain(std::iter::once('R')) {
+        match op {
+            'R' | 'r' => {
+                if reads == first_wrong {
+                    break;
+                }
+                reads += 1;
+                any_read = true;
+                seg.clear();
+            }
+            'c' | 'C' => {
+                seg.insert("push_char");
+            }
+            's' | 'S' => {
+                seg.insert("push_string");
+            }
+            _ => {}
+        }
+    }
+    let since = if any_read { "since-previous-read" } else { "before-first-read" };
+    let what = if seg.is_empty() { "nothing".to_string() } else { seg.into_iter().collect::<Vec<_>>().join("+") };
+    let alias = if t.chars().any(|c| matches!(c, 'C' | 'S' | 'r')) { " aliased" } else { "" };
+    format!("first-wrong-read pushed={what} {since}{alias} init={}", if t.starts_with('N') { "new" } else { "from" })
+}
+
 /// documented meaning: every read returns the initial contents followed by everything pushed before it
 fn buf_oracle(t: &str, a: &str, cs: [char; 2], ss: [&str; 2]) -> Vec<String> {
     let mut acc = if t.starts_with('N') { String::new() } else { a.to_string() };
